@@ -35,7 +35,7 @@ func init() {
 			runC01(c)
 			runC01Exact(c)
 			importRules(c, "C18", func(s *Ctx) { runC18(s); runC18VarKinds(s); runFieldIdentity(s, "C18-FIELDID") }, "C01-ENTRY", "the value measured is the one the caller supplied, through every entry point: URL values decoded exactly once from the caller's text and cut from their own parameter, struct fields read at their own offset, Var admits every numeric kind, all walkers follow the common skeleton (rules C18-URL, C18-FIELDID, C18-VARKINDS, C18-SKEL)", 6, ruleIn("C18-URL", "C18-FIELDID", "C18-VARKINDS", "C18-SKEL"))
-			base(c, "DECLARED", "STATE", "ALIAS", "LOOP", "TEXT")
+			base(c, "DECLARED", "STATE", "ALIAS", "LOOP", "TEXT", "RULESRC", "EXPORT", "FACADE")
 		},
 	})
 }
